@@ -111,7 +111,7 @@ fn parse_args() -> Args {
     let _ = tier_explicit;
     let seed = std::env::var("VERIF_SEED").ok().and_then(|s| s.parse::<i64>().ok()).map(|v| v as u64).unwrap_or(0);
     let default_budget = match tier {
-        Tier::Quick => 40,
+        Tier::Quick => 55,
         Tier::Thorough => 1500,
     };
     let budget = std::env::var("VERIF_BUDGET_S").ok().and_then(|s| s.parse::<u64>().ok()).unwrap_or(default_budget);
